@@ -200,6 +200,13 @@ def evaluate(unit, graph):
             if nm == "clear":
                 del c.items[:]
                 return 0
+            if nm == "assign" and len(args) == 2 and isinstance(args[0], int):
+                c.items[:] = [args[1]] * args[0]
+                return 0
+            if nm == "resize" and args and isinstance(args[0], int):
+                fill = args[1] if len(args) > 1 else 0
+                c.items[:] = (c.items + [fill] * args[0])[:args[0]]
+                return 0
             if nm in ("begin", "end", "cbegin", "cend"):
                 return (nm.lstrip("c"), c)
             raise FD.Unknown("container operation %s" % nm, n)
@@ -240,7 +247,7 @@ def evaluate(unit, graph):
     h["ev"] = ev
     if helper:
         # a helper that is handed the message vector and returns the order: evaluated as a whole
-        args = [env[vec_id] if p_["id"] == vec_id else 0 for p_ in unit.params(fn)]
+        args = [env[vec_id] if p_["id"] == vec_id else (_Obj([]) if ("vector" in (A.qtype(p_) or "") or "queue" in (A.qtype(p_) or "")) else 0) for p_ in unit.params(fn)]
         o = ev.call_function(unit, fn, args)
         if not isinstance(o, _Obj):
             raise FD.Unknown("%s does not return the order" % fn.get("name"), fn)
